@@ -19,7 +19,9 @@ VALUES = {
 }
 OTHERS = {'': '', 'id': 'id="a"', 'cls': 'class={{v3}}', 'show': 'v-show={{v4}}', 'sp': '{{...s1}}', 'clk': 'onClick={{f1}}',
           # a second directive on the same element: the same name in another spelling / with another argument, and another name
-          'foo-camel': 'vFoo={{v4}}', 'foo-ns': 'v-foo:z={{v4}}', 'foo-mod': 'v-foo_m9={{[v4, v3]}}', 'show-camel': 'vShow={{v4}}', 'bar': 'v-bar:q_m={{v4}}', 'two': 'v-bar={{v4}} vBaz={{[v3]}}'}
+          'foo-camel': 'vFoo={{v4}}', 'foo-ns': 'v-foo:z={{v4}}', 'foo-mod': 'v-foo_m9={{[v4, v3]}}', 'show-camel': 'vShow={{v4}}', 'bar': 'v-bar:q_m={{v4}}', 'two': 'v-bar={{v4}} vBaz={{[v3]}}',
+          # an attribute whose value is itself an element (lowered while the host's attributes are being walked)
+          'elattr': 'icon=<b/>', 'elattr-dir': 'icon=<i v-spin={{v3}}/>', 'elattr-braced': 'icon={{<u v-show={{v4}}/>}}', 'elattr-comp': 'icon=<C1 v-bar={{v3}}>{{v2}}</C1>'}
 
 
 def make_skeleton(spec):
@@ -377,6 +379,10 @@ def jobs(tier):
                     out.append({'host': h, 'name': nm, 'value': v, 'other': o, 'pos': pos})
         for pos in ('last', 'first'):
             out.append({'host': h, 'name': 'v-show', 'value': 'expr', 'other': 'show-camel', 'pos': pos})
+        for o in ('elattr', 'elattr-dir', 'elattr-braced', 'elattr-comp'):
+            for pos in ('last', 'first'):
+                for nm, v in (('v-foo', 'expr'), ('v-show', 'expr'), ('vFoo_m1', 'arr2')):
+                    out.append({'host': h, 'name': nm, 'value': v, 'other': o, 'pos': pos})
         for o in ('id', 'cls', 'show', 'sp', 'clk'):
             for pos in ('last', 'first'):
                 out.append({'host': h, 'name': 'v-foo_m1', 'value': 'expr', 'other': o, 'pos': pos, 'kids': 't {{v2}}'})
